@@ -727,10 +727,13 @@ void macho_parse_fat_file(
   yr_set_integer(yr_be32toh(header->magic), object, "fat_magic");
 
   uint32_t count = yr_be32toh(header->nfat_arch);
-  yr_set_integer(count, object, "nfat_arch");
 
   if (size < sizeof(yr_fat_header_t) + count * fat_arch_sz)
     return;
+
+  // nfat_arch is set only if the file really contains that many headers,
+  // functions like file_index_for_arch iterate up to nfat_arch.
+  yr_set_integer(count, object, "nfat_arch");
 
   yr_fat_arch_64_t arch;
 
